@@ -40,3 +40,7 @@ Definition opt_deref {A} (o : option A) : res A :=
   match o with Some a => Ok a | None => UB "dereference of empty optional" end.
 
 Definition zlen {A} (l : list A) : Z := Z.of_nat (List.length l).
+
+(** fuel of translated [while] loops: the translator turns a loop into a fixpoint on this fuel that
+    returns [Err "OutOfFuel"] when exhausted; theorems exclude that outcome explicitly. *)
+Definition LOOP_FUEL : nat := 200.
